@@ -122,6 +122,15 @@ MUTS={
 
         return sid""")),
  "C09-H4-empty-sid-is-missing-sid": ("C09", lambda: rep(EH, 'if "sid" not in response_headers:', 'if not response_headers.get("sid"):')),
+ "C10-A1-non-evented-variables-skipped": ("C10", lambda: rep(CL, """            state_var = self.state_variable(name)
+            try:""", """            state_var = self.state_variable(name)
+            if not state_var.send_events:
+                continue
+            try:""")),
+ "C10-H2-stamp-on-conversion-error": ("C10", lambda: rep(CL, """            self._value = UpnpStateVariable.UPNP_VALUE_ERROR
+""", """            self._value = UpnpStateVariable.UPNP_VALUE_ERROR
+            self._updated_at = datetime.now(timezone.utc)
+""")),
  "C11-M1-replay-newest-only": ("C11", lambda: rep(EH, "for item in self._backlog[sid]:", "for item in self._backlog[sid][-1:]:")),
  "C11-M2-delete-before-replay": ("C11", lambda: rep(EH, """            for item in self._backlog[sid]:
                 await self.handle_notify(item[0], item[1])
